@@ -210,7 +210,7 @@ class Engine:
         if cname == "str":
             return V.is_strv(term)
         if cname in ("list", "dict", "tuple", "set"):
-            raise Unsupported(f"isinstance(_, {cname})")
+            raise Unsupported(f"isinstance(_, {cname}) on a value without static container type")
         subs = self.repo.subclasses(cname)
         if not subs:
             raise Unsupported(f"isinstance for unknown class {cname}")
@@ -247,6 +247,41 @@ class Engine:
             r = as_r(term)
             return z3.And(V.is_ref(term), r >= 0, r < st.alloc, z3.Select(st.h("dsize"), r) >= 0)
         return z3.BoolVal(True)
+
+    def deep_type(self, term, ty: Ty, st: St, depth: int = 2):
+        """Typing of a value and (quantified) of the elements of the containers it denotes, `depth` levels down."""
+        base = self.has_type(term, ty, st)
+        t = T.strip_opt(ty)
+        if depth <= 0 or t.k not in ("list", "vtuple", "dict", "tuple"):
+            return base
+        inner = []
+        sv = SV(term, t)
+        if t.k in ("list", "vtuple"):
+            j = z3.Const(f"j!dt{next(_fresh)}", IntS)
+            et = t.a[0]
+            if et.k != "any":
+                e = self.list_get(st, sv, j)
+                inner.append(z3.ForAll([j], z3.Implies(z3.And(0 <= j, j < self.list_len(st, sv)), self.deep_type(e, et, st, depth - 1))))
+        elif t.k == "tuple":
+            for i, et in enumerate(t.a):
+                if et.k != "any":
+                    inner.append(self.deep_type(self.list_get(st, sv, z3.IntVal(i)), et, st, depth - 1))
+        elif t.k == "dict":
+            k = z3.Const(f"k!dt{next(_fresh)}", V)
+            kt, vt = t.a
+            parts = []
+            if kt.k != "any":
+                parts.append(self.has_type(k, kt, st))
+            if vt.k != "any":
+                parts.append(self.deep_type(self.dict_val(st, sv, k), vt, st, depth - 1))
+            if parts:
+                inner.append(z3.ForAll([k], z3.Implies(self.dict_has(st, sv, k), z3.And(parts))))
+        if not inner:
+            return base
+        body = z3.And(base, *inner)
+        if ty.k == "opt":
+            return z3.Or(V.is_none(term), body)
+        return body
 
     def field_type(self, cname: str | None, fld: str) -> Ty:
         if cname is not None:
@@ -322,10 +357,21 @@ class Engine:
             return t
         return T.ANY
 
-    def read_typed(self, st: St, term, ty: Ty) -> SV:
-        """A value read from the heap: assume its declared type (well-typed heap)."""
+    def read_typed(self, st: St, term, ty: Ty, cref=None, reader=None) -> SV:
+        """A value read from the heap: assume its declared type (well-typed heap) and that references stored in the heap
+        are allocated.  If the location (in container `cref`) still holds what it held at function entry, the reference
+        was already allocated at function entry (well-formedness of the entry heap) — this is what separates old objects
+        from objects allocated by the function itself."""
         if ty.k != "any":
             st.pc = st.pc + (self.has_type(term, ty, st),)
+        else:
+            st.pc = st.pc + (z3.Implies(V.is_ref(term), z3.And(as_r(term) >= 0, as_r(term) < st.alloc)),)
+        if reader is not None and cref is not None and st.entry is not None and ty.k not in ("int", "bool", "str", "none"):
+            try:
+                old = reader(st.entry)
+                st.pc = st.pc + (z3.Implies(z3.And(cref < st.entry.alloc, term == old, V.is_ref(term)), as_r(term) < st.entry.alloc),)
+            except Exception:
+                pass
         return SV(term, ty)
 
     def dict_has(self, st: St, d: SV, key):
@@ -361,7 +407,16 @@ class Engine:
         st.heap["dval"] = z3.Store(st.h("dval"), r, z3.Store(z3.Select(st.h("dval"), r), key, val))
 
     def field_read(self, st: St, obj_term, fld: str, ty: Ty) -> SV:
-        return self.read_typed(st, z3.Select(st.h("f." + fld), as_r(obj_term)), ty)
+        r = as_r(obj_term)
+        return self.read_typed(st, z3.Select(st.h("f." + fld), r), ty, r, lambda e: z3.Select(e.h("f." + fld), r))
+
+    def list_read(self, st: St, c: SV, idx, ty: Ty) -> SV:
+        r = as_r(c.term)
+        return self.read_typed(st, self.list_get(st, c, idx), ty, r, lambda e: z3.Select(z3.Select(e.h("lel"), r), idx))
+
+    def dict_read(self, st: St, c: SV, key, ty: Ty) -> SV:
+        r = as_r(c.term)
+        return self.read_typed(st, self.dict_val(st, c, key), ty, r, lambda e: z3.Select(z3.Select(e.h("dval"), r), key))
 
     def field_write(self, st: St, obj_term, fld: str, val) -> None:
         st.heap["f." + fld] = z3.Store(st.h("f." + fld), as_r(obj_term), val)
@@ -498,8 +553,8 @@ class SpecEval:
         self.result = result
         self.bound: dict[str, SV] = {}
 
-    def with_state(self, st: St) -> "SpecEval":
-        s = SpecEval(self.eng, st, self.loc, self.entry, self.cur_class, self.result)
+    def with_state(self, st: St, locals_too: bool = False) -> "SpecEval":
+        s = SpecEval(self.eng, st, st.loc if locals_too else self.loc, self.entry, self.cur_class, self.result)
         s.bound = dict(self.bound)
         return s
 
@@ -572,7 +627,7 @@ class SpecEval:
                 return self.with_state(self.entry)._bool(n.args[0])
             if f == "at_loop_entry":
                 assert self.st.loop_entry is not None
-                return self.with_state(self.st.loop_entry)._bool(n.args[0])
+                return self.with_state(self.st.loop_entry, True)._bool(n.args[0])
             if f == "ite":
                 return z3.If(self._bool(n.args[0]), self._bool(n.args[1]), self._bool(n.args[2]))
             if f in eng.reg.spec_fns:
@@ -676,6 +731,10 @@ class SpecEval:
         x = self._val(ln)
         if isinstance(rn, (ast.Tuple, ast.List, ast.Set)):
             return z3.Or([eng.eq(x, self._val(e), self.st) for e in rn.elts])
+        if isinstance(rn, ast.Name) and rn.id not in self.bound and rn.id not in self.loc:
+            coll = eng.const_members(rn.id)
+            if coll is not None:
+                return z3.Or([eng.eq(x, e, self.st) for e in coll]) if coll else z3.BoolVal(False)
         if isinstance(rn, ast.Call) and isinstance(rn.func, ast.Attribute) and rn.func.attr == "keys" and not rn.args:
             d = self._val(rn.func.value)
             return eng.dict_has(self.st, d, x.term)
@@ -726,6 +785,11 @@ class SpecEval:
                     return c
             o = self._val(n.value)
             return self._attr(o, n.attr)
+        if isinstance(n, ast.Subscript) and isinstance(n.value, ast.Name) and n.value.id not in self.bound and n.value.id not in self.loc and eng.runtime_const(n.value.id) is not None:
+            r = eng.const_dict_lookup(n.value.id, self._val(n.slice), st)
+            if r is None:
+                raise Unsupported("subscript of constant " + n.value.id)
+            return r[1]
         if isinstance(n, ast.Subscript):
             c = self._val(n.value)
             ct = T.strip_opt(c.ty)
@@ -782,7 +846,7 @@ class SpecEval:
                 return self.with_state(self.entry)._val(n.args[0])
             if f == "at_loop_entry":
                 assert st.loop_entry is not None
-                return self.with_state(st.loop_entry)._val(n.args[0])
+                return self.with_state(st.loop_entry, True)._val(n.args[0])
             if f == "len":
                 c = self._val(n.args[0])
                 ct = T.strip_opt(c.ty)
